@@ -9,6 +9,7 @@ CONSTANTS
   ValidOnly = FALSE
   Pairs = FALSE
   Ids <- GenIds
+  Datas <- DatasLin
 INVARIANT Emit
 PROPERTY NdSpec
 CHECK_DEADLOCK FALSE
